@@ -269,3 +269,61 @@ def events_trace(ck, name, sub, args, spec, cfg, what, shards=1, workers=NCPU, s
     if files:
         ck.sample(read_ndjson_line(files[0], min(5, nlines[0])))
     return st
+
+
+def streams(ck, name, family, scale=1, faults=False, maxstream=4, sizes="1,2,3", shards=NCPU):
+    """B3 for streams: every recorded run of the real stream search/replacement is
+    replayed through ACStream's actions by TLC (TraceStream.tla)."""
+    wd = workdir("stream_" + name)
+    prefix = os.path.join(wd, "trace")
+    st = run_harness(["stream", "--family", family, "--out", prefix, "--shards", shards,
+                      "--seed", seed(), "--scale", scale, "--faults", "true" if faults else "false",
+                      "--maxstream", maxstream, "--sizes", sizes])
+    jobs, files, nlines = [], [], []
+    for i in range(shards):
+        f = "%s.%d.ndjson" % (prefix, i)
+        n = count_lines(f)
+        if n == 0:
+            continue
+        files.append(f)
+        nlines.append(n)
+        jobs.append(dict(module="TraceStream", cfg=os.path.join(SPEC, "TraceStream.cfg"),
+                         name="stream_%s_%d" % (name, i), env={"TRACE": f}, workers=2,
+                         timeout=3000, xmx="3g"))
+    results = tlc_many(jobs, parallel=NCPU)
+    nrej = 0
+    for f, n, res in zip(files, nlines, results):
+        ck.add_tlc(res)
+        if res.violated:
+            lines = res.out.splitlines()
+            idx = next((i for i, l in enumerate(lines) if l.startswith("Error:")), 0)
+            ck.violation("replaying recorded stream runs of the real code through ACStream violates %s"
+                         % res.violated,
+                         {"signature": "stream-invariant:%s" % res.violated, "kind": "stream-trace",
+                          "file": f, "trace": lines[idx:idx + 100]})
+            continue
+        if len(res.tagged("DONE")) != min(16, n):
+            raise ToolError("stream trace %s: not all stripes completed" % f)
+        for r in res.tagged("REJECT"):
+            nrej += 1
+            if len(ck.violations) + len(ck.known_hits) > 100:
+                continue
+            ev = read_ndjson_line(f, r["line"])
+            ctx = read_ndjson_line(f, ev["c"])["ctx"]
+            sig = "stream:%s:%s" % (json.dumps(ctx["pats"]),
+                                    json.dumps([ev.get("stream"), ev.get("cap"), ev.get("script"),
+                                                ev.get("rfail"), ev.get("wfail"), ev.get("mode")]))
+            ck.violation("stream run on %s pats=%s ci=%s stream=%s cap=%s script=%s rfail=%s wfail=%s mode=%s: %s"
+                         % (ctx["repr"], ctx["pats"], ctx["ci"], ev.get("stream"), ev.get("cap"),
+                            ev.get("script"), ev.get("rfail"), ev.get("wfail"), ev.get("mode"), r["why"]),
+                         {"signature": sig, "kind": "stream-run", "ctx": ctx, "run": ev, "why": r["why"]})
+    ck.traces += st.get("events", 0)
+    ck.evaluations += st.get("events", 0)
+    ck.distinct += distinct_lines(files, ("c",))
+    ck.stage("B3-stream", family=family, scale=scale, faults=faults, contexts=st.get("contexts"),
+             runs=st.get("events"), rejected=nrej,
+             replay_states=sum(r.distinct for r in results),
+             wall=round(max([r.wall for r in results] or [0]), 1))
+    if files and nlines[0] >= 3:
+        ck.sample(read_ndjson_line(files[0], 3))
+    return st
